@@ -17,7 +17,7 @@ operation of the protocol that reaches the library (`hneeds`: the slots it names
 they are among the `NSLOT` observed slots) and is well-formed (`Op.wf`: an added parameter carries the
 namespace of its owner), the step the model takes passes every clause of `checkStep`:
 termination, no undefined behaviour, frame, the observable invariant, and the clause of the operation
-(`alias_tracks`, `update_shape`, `refuse`, `refuse_unchanged`, `alias_refused_wrongly`, `alias_effect`,
+(`alias_tracks`, `update_shape`, `refuse`, `refuse_unchanged`, `alias_refused_wrongly`, `alias_raise_unchanged`, `alias_effect`,
 `unalias_unchanged`, `unalias_restores`, `bulk_links`, `copy_carries`, `assign_carries`,
 `namespace_preserves`). -/
 theorem check_sound_step {w : World} (h : Inv w) (hok : HeapOk w) (op : Op) (hwf : op.wf w)
@@ -131,16 +131,8 @@ theorem check_sound_step {w : World} (h : Inv w) (hok : HeapOk w) (op : Op) (hwf
           constructor
           · rintro rfl; exact hm (refuse_only_if h ho p1 p2 (Or.inl hh))
           · rintro rfl; exact hm (refuse_only_if h ho p1 p2 (Or.inr hh))
-        obtain ⟨o', ho'⟩ : ∃ o', (aliasPair w k p1 p2).w.objs k = some o' := by
-          have := (hI.obj k)
-          cases hq : (aliasPair w k p1 p2).w.objs k with
-          | some o' => exact ⟨o', rfl⟩
-          | none =>
-            exfalso
-            have hfr := (aliasPair_fr h ho (p1 := p1) (p2 := p2)).2
-            obtain ⟨o', ho', _⟩ := hfr
-            rw [hq] at ho'; cases ho'
-        simp only [hW, hout, hh, viewOf_get _ hk, ho, ho', Option.map_some, hm', Bool.false_eq_true, if_false, Out.ofErr]
+        have hw := aliasPair_err_unchanged h ho p1 p2 (by rw [hh]; simp)
+        simp only [hW, hout, hh, hw, viewOf_get _ hk, ho, Option.map_some, hm', Bool.false_eq_true, if_false, Out.ofErr]
         cases e <;> simp [Out.isErr] at hne ⊢
       | none =>
         obtain ⟨o', ho', hok'⟩ := aliasOk_model h ho hh
@@ -243,6 +235,26 @@ theorem refuse_clause_converse {w : World} (h : Inv w) {k : Nat} {o : Obj} (ho :
 example : (step (run abc [.alias 0 "a" "b"]) (.alias 0 "b" "a")).2 = .err .bpp ∧
     (step (run World.init [.new 0 "", .add 0 ⟨"a", 5, none⟩, .add 0 ⟨"b", 1, some ⟨.fin 0, .fin 1, true, true⟩⟩])
       (.alias 0 "a" "b")).2 = .err .constraint := by decide
+
+/-- **refused leaving everything unchanged, for every kind of refusal**: whatever `aliasParameters(p1, p2)`
+raises in a reachable world — `ParameterNotFoundException`, `Exception` (alias twice, cycle) or
+`ConstraintException` (a value outside the constraint the parameter would take) — the world afterwards
+is exactly the world before. -/
+theorem alias_refused_unchanged {w : World} (h : Inv w) {k : Nat} {o : Obj} (ho : w.objs k = some o) (p1 p2 : String)
+    (he : (aliasPair w k p1 p2).err ≠ none) : (aliasPair w k p1 p2).w = w :=
+  aliasPair_err_unchanged h ho p1 p2 he
+
+/-- the constraint part as found narrowed `p2` and then raised from `p1`: a ∈ [0,10] = 2, b ∈ [5,20] = 6;
+`alias(a, b)` raises `ConstraintException` (2 ∉ [5,10]) and left b ∈ [5,10]
+(corpus/C03/witness-alias-constraint-partial.txt); the repaired code tests both values first -/
+theorem alias_constraint_partial_legacy_witness :
+    let w := run World.init [.new 0 "", .add 0 ⟨"a", 2, some ⟨.fin 0, .fin 10, true, true⟩⟩,
+      .add 0 ⟨"b", 6, some ⟨.fin 5, .fin 20, true, true⟩⟩]
+    (aliasConstraintsL w 0 1).err = some .constraint ∧
+    ((aliasConstraintsL w 0 1).w.heap.get 1).con = some ⟨.fin 5, .fin 10, true, true⟩ ∧
+    (step w (.alias 0 "a" "b")).2 = .err .constraint ∧
+    (((step w (.alias 0 "a" "b")).1).heap.get 1).con = some ⟨.fin 5, .fin 20, true, true⟩ ∧
+    mustRefuse "a" "b" (viewOf w |>.get 0 |>.getD default) = false := by decide
 
 /-! ## `setAllParametersValues` -/
 
